@@ -442,3 +442,20 @@ def model_stores_in_read_api(ctx):
             elif isinstance(st, ast.Expr) and isinstance(st.value, ast.Call) and U(st.value.func) in ("setattr", "object.__setattr__") and st.value.args and U(st.value.args[0]) == "self":
                 out.append((f, st, U(st.value.args[1]) if len(st.value.args) > 1 else "?"))
     return out, len(region)
+
+
+def named_parameters_form(ctx, rid, why):
+    """`get_named_parameters` is what turns the keyword-only parameters of a function into the parents of a derived variable (and what the
+    variable-graph extractor summarises): it returns *every* parameter name - one left out (because it has a default, say) is neither an edge
+    of the graph nor passed at evaluation."""
+    from ..astq import Canon
+    ctx.rule(rid, "get_named_parameters returns every keyword-only parameter of the function (none filtered out)", 1)
+    f = ctx.ix.func("leaspy.utils.functional._utils", "get_named_parameters", rid)
+    ctx.analysed(f)
+    L = [ln for ln in Canon(f.node).lines(False, True) if not ln.startswith("from ")]
+    text = "; ".join(L)
+    confirmed = {"if isinstance($0, NamedInputFunction); return $0.parameters; %0 = signature($0).parameters; %1 = [%2 for %2, %3 in %0.items() if %3.kind is not %3.KEYWORD_ONLY]; "
+                 "if len(%1); raise ValueError(%1); return tuple(%0)"}
+    ctx.form(rid, f, f.node, text, confirmed, ["signature($0).parameters", "KEYWORD_ONLY", "return tuple("], "all parameter names returned",
+             "get_named_parameters no longer returns every parameter of the function: " + why,
+             forbidden=[r"\.default\b", r"\.empty\b", r"return tuple\(.* for .* if ", r"return tuple\(\[.* if "], construct="every parameter is a named input")
